@@ -142,8 +142,116 @@ def vnclog_cli_leg(ctx):
                                            "observed": "recorded %r" % text[:120], "how": "the factory built by vnclog() serving an in-memory viewer"})
 
 
+def forever_leg(ctx):
+    """`vnclog --forever DIR`: ONE factory serves any number of viewers, one script file per connection.  Every viewer's
+    session is held to the property on its own - whatever other viewers connected before it, are connected at the same
+    time, or leave while it is still going on."""
+    import os, tempfile, shutil
+    from twisted.python.failure import Failure
+    from twisted.internet.error import ConnectionDone
+    r = ctx.rng
+    named = [k for k in lp.REVERSE_MAP if k < 0x110000][:40]
+    for si in range(ctx.n(60, 600)):
+        d = tempfile.mkdtemp(prefix="verif-c17f-")
+        try:
+            nv = r.choice([1, 2, 2, 2, 3])
+            overlapping = r.random() < .6
+            same_second = nv > 1 and r.random() < .12
+            plans = []
+            lastpos = None
+            for vi in range(nv):
+                bursts = []
+                for _ in range(r.randint(1, 4)):
+                    ms = []
+                    for _ in range(r.randint(1, 4)):
+                        if r.random() < .5:
+                            ks = r.choice(named) if r.random() < .3 else r.randrange(33, 127)
+                            down = r.random() < .5
+                            ms.append((struct.pack("!BBxxI", 4, down, ks), ("key", ks, down)))
+                        else:
+                            x, y, m = r.choice([0, 1, 10, 65535]), r.choice([0, 2, 20, 65535]), r.choice([0, 0, 1, 4, 5])
+                            if lastpos is not None and not any(q[1][0] == "ptr" for b in bursts for q in b) and not any(q[1][0] == "ptr" for q in ms) and r.random() < .6:
+                                x, y = lastpos          # this viewer starts where the previous viewer left the pointer
+                            ms.append((struct.pack("!BBHH", 5, m, x, y), ("ptr", x, y, m)))
+                    bursts.append(ms)
+                for b in bursts:
+                    for q in b:
+                        if q[1][0] == "ptr":
+                            lastpos = (q[1][1], q[1][2])
+                plans.append([("connect", vi)] + [("burst", vi, b) for b in bursts] + [("disconnect", vi)])
+            # one schedule: sequential sessions, or a random merge that keeps each viewer's own order
+            sched = []
+            if overlapping:
+                idx = [0] * nv
+                while any(idx[v] < len(plans[v]) for v in range(nv)):
+                    v = r.choice([v for v in range(nv) if idx[v] < len(plans[v])])
+                    sched.append(plans[v][idx[v]]); idx[v] += 1
+            else:
+                for pl in plans:
+                    sched += pl
+            t = r.randrange(1, 10 ** 5) * 10000
+            proxies, t_conn, msgs_t = {}, {}, {v: [] for v in range(nv)}
+            fac = None
+            excs = []
+            nconn = 0
+            descr = []
+            for act in sched:
+                if act[0] == "connect":
+                    if nconn:
+                        t += 0 if same_second else 10000 * r.randint(1, 3)
+                    nconn += 1
+                    px = Proxy(False, t, fac=fac, outdir=d)
+                    fac = px.fac
+                    proxies[act[1]] = px
+                    t_conn[act[1]] = t
+                    hs, _ = viewer_handshake(r, False)
+                    px.viewer_sends(hs)
+                    descr.append("t=%d viewer %d connects" % (t, act[1]))
+                elif act[0] == "burst":
+                    t += r.choice([0, 1, 3, 10000, 12345])
+                    px = proxies[act[1]]
+                    px.set_time(t)
+                    _, _, exc = px.viewer_sends(b"".join(m[0] for m in act[2]))
+                    if exc:
+                        excs.append(exc)
+                    msgs_t[act[1]] += [(m[1], t) for m in act[2]]
+                    descr.append("t=%d viewer %d sends %s" % (t, act[1], " ".join(hx(m[0]) for m in act[2])))
+                else:
+                    t += r.choice([0, 5, 10000])
+                    px = proxies[act[1]]
+                    px.set_time(t)
+                    px.srv.connectionLost(Failure(ConnectionDone()))
+                    descr.append("t=%d viewer %d disconnects" % (t, act[1]))
+            # the connections are gone: drop every reference to them, as the reactor does (a file that nobody closed explicitly
+            # is flushed when its last reference goes away - not a loss)
+            import gc
+            for q in proxies.values():
+                f = getattr(getattr(q.srv, "recorder", None), "__self__", None)
+                if f is not None and hasattr(f, "closed") and not f.closed:
+                    f.flush()          # what the interpreter does to a file nobody closed, at the latest when the process ends
+            proxies.clear(); px = None; fac = None
+            gc.collect()
+            want = sorted(repr([tuple(e) for e in spec_entries(msgs_t[v], t_conn[v])]) for v in range(nv))
+            got = []
+            for fn in sorted(os.listdir(d)):
+                with open(os.path.join(d, fn)) as f:
+                    got.append(repr([(lambda e: tuple(e) if not isinstance(e, str) else e)(parse_entry(ln)) for ln in f.read().splitlines(True)]))
+            got.sort()
+            ctx.count("forever_sessions_%d_viewers_%s" % (nv, "overlapping" if overlapping else "sequential") + ("_same_second" if same_second else ""))
+            ctx.case(None, key=("forever", si))
+            if excs or got != want:
+                sig = "forever-scripts" + ("-same-second" if same_second else "-overlapping" if overlapping and nv > 1 else "")
+                ctx.violate(sig, {"input": {"option": "--forever DIR (one script file per connection, one factory)", "viewers": nv, "schedule": descr},
+                                  "observed": ("exception escaped dataReceived: %r" % excs) if excs else
+                                              "the directory holds %d script(s) %s; the %d session(s) were %s" % (len(got), [g[:300] for g in got], nv, [w[:300] for w in want]),
+                                  "how": "real VNCLoggingServerFactory with output = a directory, in-memory viewers, time.time / time.strftime of loggingproxy on a virtual clock"})
+        finally:
+            shutil.rmtree(d, ignore_errors=True)
+
+
 def run(ctx):
     vnclog_cli_leg(ctx)
+    forever_leg(ctx)
     r = ctx.rng
     n = ctx.n(150, 2500)
     lines, meta_all = [], []
